@@ -61,6 +61,11 @@ Degenerate == NV(3) \o << K("add_edge", 0, 0, <<>>, TRUE), KLF("add_face", <<0>>
                           K("add_edge", 0, 1, <<>>, FALSE), K("add_edge", 1, 0, <<>>, TRUE),
                           KLF("add_face", <<2, 4>>, TRUE), K("add_edge", 1, 2, <<>>, FALSE) >>
 
+(* square pyramid whose base edges exist beforehand in mixed directions and order, so that the *)
+(* faces use odd halfedges and edge handles are not in face order (12: with the cell, 13: faces only) *)
+PyramidFaces == NV(5) \o << K("add_edge", 1, 0, <<>>, FALSE), K("add_edge", 1, 2, <<>>, FALSE),
+                            K("add_edge", 3, 2, <<>>, FALSE), K("add_edge", 3, 0, <<>>, FALSE),
+                            FV(<<0, 3, 2, 1>>), FV(<<0, 1, 4>>), FV(<<1, 2, 4>>), FV(<<2, 3, 4>>), FV(<<3, 0, 4>>) >>
 SeedScript(k) ==
   CASE k = 0 -> <<>>
     [] k = 1 -> Tet1
@@ -72,6 +77,8 @@ SeedScript(k) ==
                            K("add_edge", 4, 5, <<>>, FALSE), K("add_edge", 0, 4, <<>>, FALSE),
                            FV(<<5, 6, 7>>) >>
     [] k = 5 -> NV(3) \o << FV(<<0, 1, 2>>), FV(<<0, 1, 2>>), KLF("add_cell", <<0, 3>>, TRUE) >>
+    [] k = 12 -> PyramidFaces \o << KLF("add_cell", <<0, 2, 4, 6, 8>>, TRUE) >>
+    [] k = 13 -> PyramidFaces
     [] k = 9 -> Prism
     [] k = 10 -> EdgeShare
     [] k = 11 -> Degenerate
@@ -219,7 +226,7 @@ SimEmit == (Emit = "sim" /\ Len(path) = Depth - 2) =>
               PrintT(<<"SIM", ToJson([key |-> org.key, script |-> org.script, path |-> path])>>)
 
 (* seeds are well-formed, closed where they claim to be, caches inverse *)
-ExpectedCells(k) == CASE k \in {0, 6, 11} -> 0 [] k \in {1, 4, 5, 9} -> 1 [] k \in {2, 7, 10} -> 2 [] k \in {3, 8} -> 3
+ExpectedCells(k) == CASE k \in {0, 6, 11, 13} -> 0 [] k \in {1, 4, 5, 9, 12} -> 1 [] k \in {2, 7, 10} -> 2 [] k \in {3, 8} -> 3
 SeedOK == (path = <<>>) => /\ WellFormed(s) /\ CacheIsInverse(s) /\ FanOrder(s) /\ s.err = ""
                            /\ Len(s.cells) = ExpectedCells(org.key[1])   \* every add_cell of the seed script was accepted
 =============================================================================
